@@ -73,7 +73,7 @@ pub fn spec_for(prop: &str, tier: &str) -> SemSpec {
         auto: if prop == "C04" { 2 } else { 1 },
         xq_cap: if prop == "C04" { 4000 } else { 0 },
         cases: prop == "C04" || prop == "C15",
-        with_steps: false,
+        with_steps: true,
     }
 }
 
@@ -182,7 +182,7 @@ fn nontrivial(prop: &str, p: &Program, s: &HistStats) -> bool {
     match prop {
         "C01" => s.judged_closes > 0 && s.derived_something && multi_premise,
         "C02" => s.judged_closes > 0 && (s.merges > 0 || s.created > 0) && !s.chase_bounded,
-        "C04" => s.judged_closes > 0 && s.merges > 0,
+        "C04" => s.judged_closes > 0 && (s.merges > 0 || s.equates_distinct > 0),
         "C05" => s.define_hits > 0 && s.define_misses > 0 && s.equates_distinct > 0 && s.clean_queries > 0 && s.dirty_queries > 0,
         "C06" => s.judged_closes > 0 && s.merges > 0 && s.max_evals >= 3,
         "C15" => s.enum_elements_checked > 0 && s.judged_closes > 0,
@@ -395,9 +395,9 @@ fn reductions(p: &Program) -> Vec<Program> {
     out
 }
 
-/// Greedy program reduction: keep a deletion if the program is still accepted and the (fixed)
-/// history still fails the same property.
-fn reduce_program(p: &Program, spec: &SemSpec, h: &[Op], prop: &str, budget: usize) -> Program {
+/// Greedy program reduction: keep a deletion if the program is still accepted by the compiler
+/// and `fails` still reports the failure.
+pub fn reduce_program_with(p: &Program, budget: usize, fails: &dyn Fn(&Program, &[flat::FlatRule], &pipeline::Built) -> bool) -> Program {
     let mut best = p.clone();
     let mut used = 0;
     'outer: loop {
@@ -415,8 +415,7 @@ fn reduce_program(p: &Program, spec: &SemSpec, h: &[Op], prop: &str, budget: usi
                 Ok(b) => b,
                 Err(_) => continue,
             };
-            let r = run_histories(&q, &rules, &built.exe, spec, &[h.to_vec()]);
-            if r.findings.iter().any(|f| f.prop == prop) {
+            if fails(&q, &rules, &built) {
                 best = q;
                 continue 'outer;
             }
@@ -424,6 +423,13 @@ fn reduce_program(p: &Program, spec: &SemSpec, h: &[Op], prop: &str, budget: usi
         break;
     }
     best
+}
+
+fn reduce_program(p: &Program, spec: &SemSpec, h: &[Op], prop: &str, budget: usize) -> Program {
+    reduce_program_with(p, budget, &|q, rules, built| {
+        let r = run_histories(q, rules, &built.exe, spec, &[h.to_vec()]);
+        r.findings.iter().any(|f| f.prop == prop)
+    })
 }
 
 pub struct CampaignResult {
@@ -624,7 +630,7 @@ pub fn run_sem_campaign(prop: &'static str, tier: &str, seed: u64) -> CampaignRe
         match prop {
             "C01" => "a judged close derived >= 1 tuple/equality/element and some rule has >= 2 premise atoms",
             "C02" => "reference chase merged classes or created an element and terminated within the bound",
-            "C04" => "a judged close with >= 1 merge (rows rewritten by canonicalisation)",
+            "C04" => "a judged close after >= 1 merge of distinct classes (by equate_ or by a rule), i.e. rows rewritten by canonicalisation",
             "C05" => "history has a define_ hit and a miss, an equate_ of distinct classes, and state comparisons in both regimes (before/after an equate since the last close)",
             "C06" => ">= 1 merge and >= 3 iterations of the close loop",
             "C15" => ">= 1 enum element destructured after a judged close",
